@@ -19,7 +19,7 @@ From RV Require Import Base.
 From RV.Model Require Import Utf8 Indexer CodePointSet Insn IR Optimizer Unfold Emit Pike BT Exec Fold.
 From RV.Spec Require Import IRSem IRShape.
 From RV.Gen Require Import FoldTables.
-From RV.Proofs Require Import PikeTop BTTop StartPred Prefilter.
+From RV.Proofs Require Import PikeTop BTTop StartPred Prefilter Utf8Facts Utf8Valid.
 
 Theorem c04_start_predicate_sound : forall ix unicode utf16 h f n p G l sp,
   first_byte_at ix h p -> brackets_wf n = true ->
@@ -73,6 +73,20 @@ Theorem c04_pikevm_next_match : forall ix h utf16 unicode ml n body prog names f
   exists f0 k, forall pfuel n budget, (f0 <= pfuel)%nat -> n + k <= budget ->
     pk_next_match ix prog h budget pfuel tt p n = (result_of ix h r, n + k).
 Proof. exact pk_next_match_correct. Qed.
+
+(* on well-formed UTF-8 text, at a character boundary, the byte under the cursor is the first byte of the element read:
+   the hypothesis of the start-predicate theorem is a theorem *)
+Theorem c04_start_predicate_sound_valid_utf8 : forall fold unicode utf16 h cs f n p G l sp,
+  utf8_chars (length h) h = Some cs -> Utf8Valid.bnd cs p -> brackets_wf n = true ->
+  compute_start_predicate n = Ok (Some sp) ->
+  ir_results (utf8_indexer fold) unicode utf16 h f n true (p, G) = Some l -> l <> [] ->
+  asp_test sp (skipn p h) = true.
+Proof.
+  intros fold unicode utf16 h cs f n p G l sp Hch Hp Hb Hsp E Hne.
+  destruct (utf8_chars_ok _ _ _ Hch) as [Hw Hcat]. subst h.
+  apply (ir_sp (utf8_indexer fold) unicode utf16 (concat cs) f n p G l sp); try assumption.
+  intros c p' Ec. exact (first_byte_utf8 fold cs p c p' Hw Hp Ec).
+Qed.
 
 (* Non-vacuity: /(?:ab|ac)d/ (literal bytes) on "xxacd": the predicate is the literal prefix "a", the walk
    conditions hold, the match is 2..5. *)
